@@ -215,6 +215,84 @@ func runC15(c *core.Ctx) {
 	}
 	c15R3(c, li)
 	c15R5(c, ops, chans)
+	c15R6(c, li, chans)
+}
+
+// c15R6: state the closer releases. A reference field of a closable object that its closer sets to nil (to let the
+// buffered items go) is dereferenced by the other operations; each such use must sit inside a hold of the closer's lock
+// in which the closed flag was re-tested - a closed-check made before taking the lock leaves a window in which Close
+// runs and the operation then dereferences nil.
+func c15R6(c *core.Ctx, li *core.LockInfo, chans map[string]*c15chan) {
+	p := c.P
+	c.Rule("R6", "a field that the closer of an object sets to nil is only dereferenced inside a hold of the closer's lock in which the closed flag was found not set (a Close landing between an unlocked closed-check and the use makes the operation dereference nil and panic)", 1)
+	released := map[string]*c15chan{}
+	closerFns := map[*ssa.Function]bool{}
+	for _, name := range keysOf(chans) {
+		ch := chans[name]
+		for _, cl := range ch.closers {
+			closerFns[cl.Fn] = true
+			core.Instrs(cl.Fn, func(ins ssa.Instruction) {
+				st, ok := ins.(*ssa.Store)
+				if !ok || !core.IsNilConst(st.Val) {
+					return
+				}
+				fa, isFA := st.Addr.(*ssa.FieldAddr)
+				if !isFA || core.Path(core.FieldOwner(fa)) != cl.Base {
+					return
+				}
+				key := core.FieldKey(fa)
+				if key == "" || chans[key] != nil {
+					return
+				}
+				switch fa.Type().(*types.Pointer).Elem().Underlying().(type) {
+				case *types.Pointer, *types.Map, *types.Slice, *types.Interface, *types.Signature:
+					released[key] = ch
+				}
+			})
+		}
+	}
+	n := 0
+	for _, key := range keysOf(released) {
+		ch := released[key]
+		for _, f := range p.Funcs {
+			if closerFns[f] {
+				continue
+			}
+			core.Instrs(f, func(ins ssa.Instruction) {
+				ld, ok := ins.(*ssa.UnOp)
+				if !ok || ld.Op != token.MUL {
+					return
+				}
+				fa, isFA := ld.X.(*ssa.FieldAddr)
+				if !isFA || core.FieldKey(fa) != key {
+					return
+				}
+				// a use that needs the object: anything but a comparison with nil
+				used := false
+				for _, r := range *ld.Referrers() {
+					switch x := r.(type) {
+					case *ssa.DebugRef:
+					case *ssa.BinOp:
+						if !((x.Op == token.EQL || x.Op == token.NEQ) && (core.IsNilConst(x.X) || core.IsNilConst(x.Y))) {
+							used = true
+						}
+					default:
+						used = true
+					}
+				}
+				if !used {
+					return
+				}
+				n++
+				c.Analysed(core.FuncName(f))
+				okG, why := c15guarded(p, li, f, ins, core.Path(core.FieldOwner(fa)), ch, 0)
+				c.Check(okG, "R6", fmt.Sprintf("%s/use@%s#%d", key, core.FuncName(f), n), p.InstrPos(ins), why, "use of "+key+", which the closer sets to nil: "+why)
+			})
+		}
+	}
+	if len(released) == 0 {
+		c.Pass("R6", "released-state", "-", fmt.Sprintf("no closer releases (sets to nil) a reference field of its object; %d closable channels examined", len(chans)))
+	}
 }
 
 // c15R5: a caller that blocks in a receive on a field channel of a closable object must be released by the close.
